@@ -402,7 +402,7 @@ class MachO(BinFormat):
                     r.seg_offset += skip + l
                 cur += cnt + cnt2
             else:
-                raise NotImplementedError
+                raise MachOError("unsupported bind opcode %#x" % op)
         return L
 
     def __read_dysymtab(self, cmd):
